@@ -125,7 +125,7 @@ def _judge_c07(ctx, world, reqs, neg_thread=None, neg=None):
         if v.get("prop") != "C07":
             continue
         st = v.get("step", {})
-        brief = {k: st.get(k) for k in ("kind", "occ", "ur", "sp", "path", "name", "newname", "newpath", "item", "ops", "steps", "reps", "disclosed") if k in st}
+        brief = {k: st.get(k) for k in ("kind", "occ", "ur", "sp", "path", "name", "newname", "newpath", "item", "ops", "steps", "tmp", "reps", "disclosed") if k in st}
         ctx.add_violation(sig_c07(v), {"request": brief, "detail": v.get("detail")},
                           replay={"driver": "vh-files c07", "trace_module": "Trace_Files", "world": world[0], "request": {k: st.get(k) for k in st if k not in ("diff", "names")}})
     for d in drift:
@@ -156,7 +156,9 @@ def run_c07(ctx):
             if q["kind"] == "upfolder":      # transfers (3 s each, run in parallel): all one-segment items, 30 % of the rest
                 top = q["item"]["count"] <= 1 or h < 3
             else:
-                top = q["kind"] in ("rename", "acct", "seq") or q.get("path") == [-1] or h < 4
+                top = q["kind"] in ("rename", "seq") or (q["kind"] != "acct" and q.get("path") == [-1]) or h < 4
+                if q["kind"] == "acct":          # (account creation hashes a password at full cost: the slowest requests)
+                    top = q["occ"] == 0 and (h < 6 or q.get("tmp") == 1)
             if top:
                 keep.append(q)
         reqs = keep
@@ -271,7 +273,7 @@ def replay(ctx, prop, rp):
     ctx.build(name="vh-files")
     r = rp.get("replay") or {}
     if prop == "C07":
-        keep = ("kind", "occ", "ur", "sp", "path", "name", "newname", "newpath", "comment", "item", "ops", "steps")
+        keep = ("kind", "occ", "ur", "sp", "path", "name", "newname", "newpath", "comment", "item", "ops", "steps", "tmp")
         _judge_c07(ctx, [r["world"]], [{k: v for k, v in r["request"].items() if k in keep}])
     else:
         _judge_c11(ctx, [r["script"]], 0)
